@@ -139,6 +139,10 @@ class load(DataStreamProcessor):
 
     def safe_process_datapackage(self, dp: Package):
 
+        # What is loaded belongs to this run only (the same step object may be run again)
+        self.resource_descriptors = []
+        self.iterators = []
+
         # If loading from datapackage & resource iterator:
         if isinstance(self.load_source, tuple):
             datapackage_descriptor, resource_iterator = self.load_source
